@@ -37,17 +37,21 @@ pub(crate) fn optimize(
     let mut plans = Vec::with_capacity(36);
     let mut new_plan = Vec::with_capacity(36);
 
-    if enabled_modes.contains(mode) {
+    let first_iteration = if enabled_modes.contains(mode) {
         plans.push(start_plan);
+        0
     } else {
+        // The plans created here have already consumed the first character,
+        // this is what the loop below expects of the plans in its second iteration.
         start_plan.add_switches(&mut plans, data.len(), true, enabled_modes);
-    }
+        1
+    };
 
-    for iteration in 0usize.. {
+    for iteration in first_iteration.. {
         let mut at_end = false;
         let use_as_start = iteration == 0;
 
-        let rest_chars = data.len() - iteration;
+        let rest_chars = data.len().saturating_sub(iteration);
         for mut plan in plans.drain(0..) {
             let plan_copy_before_step = plan.clone();
             #[cfg(feature = "verif_hooks")]
